@@ -426,7 +426,14 @@ impl Value {
 	#[cfg(feature = "canonicalize")]
 	pub fn canonicalize_with(&mut self, buffer: &mut ryu_js::Buffer) {
 		match self {
-			Self::Number(n) => *n = NumberBuf::from_number(n.canonical_with(buffer)),
+			Self::Number(n) => {
+				// `Number::canonical_with` relies on a lossy float parser;
+				// RFC 8785 requires the nearest double.
+				let f: f64 = n.as_str().parse().unwrap();
+				*n = NumberBuf::from_number(unsafe {
+					Number::new_unchecked(buffer.format_finite(f))
+				})
+			}
 			Self::Array(a) => {
 				for item in a {
 					item.canonicalize_with(buffer)
